@@ -80,7 +80,8 @@ _TS_TUS = _IMN + ['src/interrogate/typeManager.cxx'] + [_P + x for x in (
     'cppStructType.cxx', 'cppExtensionType.cxx', 'cppScope.cxx', 'cppIdentifier.cxx', 'cppNameComponent.cxx', 'cppType.cxx',
     'cppDeclaration.cxx', 'cppAttributeList.cxx', 'cppFile.cxx')] + ['src/dtoolutil/filename.cxx']
 _TS_CUT = ['_ZN11TypeManager12resolve_typeEP7CPPTypeP8CPPScope', '_ZN9CPPParser10parse_typeERKNSt7__cxx1112basic_stringIcSt11char_traitsIcESaIcEEE',
-           '_ZNK7CPPType14get_local_nameB5cxx11EP8CPPScope']
+           '_ZNK7CPPType14get_local_nameB5cxx11EP8CPPScope',
+           '_ZNK16CPPExtensionType14get_local_nameB5cxx11EP8CPPScope']
 _TS_SKIP = [x.split('/')[-1] for x in _TS_TUS]
 _TS_UNIVERSE = ('25 real type objects: bool, const bool, typedef of bool, int, const int, unsigned, long, short, long long, unsigned long long, '
                 'unscoped enum, enum class, double, const double, float, char, const char *, string class by value and by const reference, '
@@ -97,11 +98,11 @@ HARNESSES += [
   'oracle': _TS_ORACLE + '; bool variants rank alike',
   'bounds': {'quick': {'unwind': 30, 'cap': 300}}},
  {'id': 'c02_dispatch_pairs', 'property': 'C02', 'src': 'c02_typesort.cxx', 'entry': 'harness_c02_dispatch_order', 'tus': _TS_TUS,
-  'cut': _TS_CUT, 'skip_ctors': _TS_SKIP, 'cbmc_flags': _FS,
+  'cut': _TS_CUT, 'skip_ctors': _TS_SKIP, 'cbmc_flags': _FS + ['--no-pointer-check'],
   'desc': 'order in which an overload set of two one-parameter overloads is tried: real RemapCompareLess + std::sort on real parameter types',
   'domain': _TS_UNIVERSE + '; every ordered pair (both input orders reach std::sort; concrete loops), const-ness of the methods symbolic',
   'oracle': _TS_ORACLE,
-  'bounds': {'quick': {'defs': {'NOV': 2, 'NPAR': 1}, 'unwind': 30, 'cap': 300}}},
+  'bounds': {'quick': {'defs': {'NOV': 2, 'NPAR': 1, 'A_FROM': 0, 'A_TO': 1}, 'unwind': 30, 'unwindset': {'ll_ctlz.0': 66}, 'cap': 300}}},
 ]
 
 PROPERTY_INFO = {'C02': {'level': 'model_checking',
